@@ -8,7 +8,7 @@ THEOREMS = ['Eff.C15_sound', 'Eff.C15_static', 'Eff.C15_frame', 'Eff.C15_summari
 RULE = ("random sequences (length 3..8) of public API calls that SHARE their argument objects (one signal array, one set of option dictionaries incl. nested dicts, "
         "one cycle table per centring): compute_features (both burst methods, both centrings), compute_shape_features, compute_cyclepoints, compute_burst_features, the four "
         "burst-feature functions, find_extrema / find_zerox, compute_features_2d / 3d (shared dict, per-row lists, aliased lists, axis 0 / None / (0,1)), recompute_edges, "
-        "limit_df, epoch_df, drop_samples_df, the plotting functions, and calls that RAISE part-way (a filter longer than the signal, both centrings); after every call a deep snapshot of every shared object is compared with the one taken before (arrays "
+        "limit_df, epoch_df, drop_samples_df, the plotting functions, and calls that RAISE part-way (a filter longer than the signal, both centrings), calls on a recording with NaN / inf samples; after every call a deep snapshot of every shared object is compared with the one taken before (arrays "
         "bytewise and their writeable flag, dicts recursively, tables with DataFrame.equals), and every call is repeated at the end of the sequence and must return an "
         "identical result; two calls per sequence are also compared with the same call executed in a PRISTINE process (forked from a server that imported bycycle and never called it: no module-level state of the session can agree with it by accident); distinct = distinct call sequences; non-trivial = the sequence contains at least two calls sharing an option dictionary or a table")
 ASSUMPTIONS = ["deep snapshots use pickle round-trips of the argument objects; object identity of nested containers is not part of the statement",
@@ -25,7 +25,8 @@ OPS = ['cf_cycles', 'cf_amp', 'cf_cycles_trough', 'cf_amp_trough', 'shape', 'sha
        'shape_trough_sub', 'cf_trough_sub', 'cyclepoints_sub', 'mono_sub', 'shape_trough_series',
        'extrema_nsec_a', 'extrema_nsec_b', 'cf_nsec_a', 'cf_nsec_b', 'cf_ncyc5', 'user_refill', 'user_refill',
        'cf_empty_fk', 'extrema_empty_fk', 'shape_empty_fk', 'edges_nobursts', 'edges_nobursts_t',
-       'shape_ncyc7_default', 'shape_default', 'obj_default_fit', 'group_default_fit']
+       'shape_ncyc7_default', 'shape_default', 'obj_default_fit', 'group_default_fit',
+       'cf_nan', 'shape_nan', 'mono_nan', 'zerox_nan']
 
 class World:
     """the shared argument objects of one session"""
@@ -49,6 +50,8 @@ class World:
         self.th_strict = {'amp_fraction_threshold': 0.99, 'amp_consistency_threshold': 0.99, 'period_consistency_threshold': 0.99, 'monotonicity_threshold': 0.99, 'min_n_cycles': 3}
         self.sig_sub = implutil.present(self.sig, 'subclass')      # an ndarray subclass: np.asarray(sig_sub) is a new object on the same memory
         self.sig_series = pd.Series(self.sig.copy())
+        # a recording with a dropout (NaN) and a saturated sample (inf): whether a function analyses it or refuses it, the caller's samples stay as they are
+        self.sig_nan = self.sig.copy(); self.sig_nan[[300, 301, 302, 800]] = [np.nan, np.nan, np.nan, np.inf]
         self.sigs2 = np.array([self.sig[:500], self.sig[500:]])
         self.sigs3 = np.array([[self.sig[:500], self.sig[500:]]])
         self.df = implutil.quiet(compute_features, self.sig.copy(), self.fs, self.fr, threshold_kwargs=dict(self.th_c))
@@ -60,7 +63,7 @@ class World:
         rev = np.ascontiguousarray(self.sig[::-1])
         self._alt = (implutil.quiet(compute_features, rev.copy(), self.fs, self.fr, threshold_kwargs=dict(self.th_c)),
                      implutil.quiet(compute_features, rev.copy(), self.fs, self.fr, center_extrema='trough', threshold_kwargs=dict(self.th_c)))
-        self.shared = ['sig', 'th_c', 'th_a', 'bk', 'bk_min', 'fek', 'opts', 'opt_list', 'sigs2', 'sigs3', 'df', 'df_t', 'bk_min6', 'opt_list_amp', 'sig_sub', 'sig_series', 'fek_empty', 'fk_empty', 'th_strict', 'df_nob', 'df_nob_t']
+        self.shared = ['sig', 'th_c', 'th_a', 'bk', 'bk_min', 'fek', 'opts', 'opt_list', 'sigs2', 'sigs3', 'df', 'df_t', 'bk_min6', 'opt_list_amp', 'sig_sub', 'sig_series', 'fek_empty', 'fk_empty', 'th_strict', 'df_nob', 'df_nob_t', 'sig_nan']
     def snapshot(self):
         out = {}
         for k in self.shared:
@@ -126,6 +129,11 @@ def _call(w, op):
         if op == 'cf_nsec_a': return q(compute_features, w.sig, w.fs, w.fr, threshold_kwargs=w.th_c, find_extrema_kwargs={'filter_kwargs': {'n_seconds': 0.3}})
         if op == 'cf_nsec_b': return q(compute_features, w.sig, w.fs, w.fr, threshold_kwargs=w.th_c, find_extrema_kwargs={'filter_kwargs': {'n_seconds': 0.6}})
         if op == 'cf_ncyc5': return q(compute_features, w.sig, w.fs, w.fr, center_extrema='trough', threshold_kwargs=w.th_c, find_extrema_kwargs={'filter_kwargs': {'n_cycles': 5}})
+        if op == 'cf_nan': return q(compute_features, w.sig_nan, w.fs, w.fr, threshold_kwargs=w.th_c)
+        if op == 'shape_nan': return q(compute_shape_features, w.sig_nan, w.fs, w.fr, center_extrema='trough')
+        if op == 'mono_nan': return q(compute_monotonicity, w.df, w.sig_nan)
+        if op == 'zerox_nan':
+            pk, tr = q(find_extrema, w.sig, w.fs, w.fr); return q(find_zerox, w.sig_nan, pk, tr)
         if op == 'user_refill':      # the CALLER refills its own signal buffer in place (an acquisition buffer): no library call is involved
             _refill(w)
             return 'refilled'
